@@ -623,6 +623,66 @@ def target_call_path_cases():
     return out
 
 
+def _reachable(root, target, limit=20000):
+    """is `target` reachable from `root` through attributes and containers?"""
+    seen, todo = set(), [root]
+    while todo and len(seen) < limit:
+        o = todo.pop()
+        if o is target:
+            return True
+        if id(o) in seen or isinstance(o, (str, bytes, int, float, bool, type(None), z3.AstRef)):
+            continue
+        seen.add(id(o))
+        if isinstance(o, dict):
+            todo.extend(o.keys())
+            todo.extend(o.values())
+        elif isinstance(o, (list, tuple, set, frozenset)):
+            todo.extend(o)
+        elif hasattr(o, "__dict__"):
+            todo.extend(vars(o).values())
+    return False
+
+
+def probe_outcome_cases():
+    """`any assertion inside a target is checked after each call; a sequence that breaks it yields FAIL`: the context into which the
+    handler of _compute_frontier records the outcomes of those queries (counterexamples, timeouts, errors) has to be one a verdict is
+    computed from: the context of a test, or something the contract context keeps.  KNOWN FINDING C15-F19: it is a throw-away context"""
+    from contracts.common import replay_script
+    from contracts.c20 import LenientArgs
+
+    out = []
+
+    def harness(interp):
+        ctx = interp.ctx
+        sf, node = loader.func_node(hm._compute_frontier)
+        idx = [k for k, st in enumerate(node.body) if isinstance(st, ast.For) and "curr_exs" in ast.unparse(st.iter)]
+        if len(idx) != 1:
+            raise loader.BindingError("_compute_frontier: the loop over the previous frontier was not found")
+        head = [st for st in node.body[: idx[0]] if not (isinstance(st, ast.Expr) and isinstance(st.value, ast.Constant))]
+        made = []
+
+        def mk_fctx(i, a, k):
+            o = NS(**k, solver_outputs=[], valid_counterexamples=[], invalid_counterexamples=[])
+            made.append(o)
+            return o
+
+        interp.contracts["halmos.solve:FunctionContext"] = mk_fctx
+        interp.contracts["halmos.__main__:CounterexampleHandler"] = lambda i, a, k: NS(**k)
+        cctx = NS(frontier_states={0: [NS(tag="setUp state")]}, visited=set(), args=LenientArgs(), name="T", probes_reported=set())
+        env = Env({"ctx": cctx, "depth": 1}, None, hm.__dict__)
+        kind, payload, _ = interp.exec_fragment(head, env, qual="halmos.__main__:_compute_frontier#probe-context", is_gen=False)
+        ctx.oblige("the part before the loop runs to its end and creates the handler for target assertions", z3.BoolVal(kind == "fallthrough" and "handler" in env.vars), info={"kind": kind, "payload": str(payload)[:120]})
+        if kind != "fallthrough" or "handler" not in env.vars:
+            return
+        handler = env.vars["handler"]
+        pctx = handler.ctx
+        ctx.oblige("target assertions are handled as probes of an invariant run", z3.BoolVal(handler.is_probe is True and handler.is_invariant is True))
+        ctx.oblige("the outcomes of the target assertions' queries are recorded where a verdict can see them (a test's context, or kept by the contract context)", z3.BoolVal(_reachable(cctx, pctx)), info={"context": str(getattr(getattr(pctx, "info", None), "name", None))})
+
+    out.append(Case(f"{PROP}/__main__._compute_frontier#probe-context", "depth 1", harness, replay=replay_script("probe_verdict.py", "Target.poke(x) asserts x != 0; invariant_ok() is trivially true; depth 1"), sources=("halmos.__main__:_compute_frontier",)))
+    return out
+
+
 def path_slice_cases():
     """Exec.path_slice: the state variables handed to Path.slice are the variables of the balance, of every symbolic code
     chunk of EVERY account and of every stored value of EVERY account (the state id and the successor's solver are built from
@@ -675,7 +735,7 @@ def build_cases(tier="quick"):
 
     ref += [Case(f"{PROP}/sevm.SEVM.run_message#own-block", c.case, c.harness, replay=c.replay, sources=c.sources) for c in c20.fork_cases() if c.unit.endswith("sevm.SEVM.run_message")]
     ref += [Case(f"{PROP}/sevm.Path.extend_path#successor-owns-its-conditions", c.case, c.harness, replay=c.replay, sources=c.sources) for c in c11.path_growth_cases() if "extend_path" in c.unit]
-    return path_slice_cases() + sender_cases() + frontier_cases() + digest_cases() + slice_cases() + target_call_path_cases() + ref
+    return probe_outcome_cases() + path_slice_cases() + sender_cases() + frontier_cases() + digest_cases() + slice_cases() + target_call_path_cases() + ref
 
 
 def grounds():
